@@ -1,9 +1,10 @@
-\* thorough, Maven front-end only: every pom.xml with <= 4 <dependency> elements over the 8 shapes, 5 surroundings
+\* thorough, Maven front-end only: every pom.xml with <= 3 <dependency> elements over the 8 shapes, 5 surroundings
+\* (2925 cases; pom cases replay in 10 ms, so ALL of them are replayed on the real code, not a sample)
 SPECIFICATION Spec
 CONSTANTS
   Repaired = TRUE
   Kinds = {"pom"}
-  MaxEntries = 4
+  MaxEntries = 3
   Groups = {"org.a"}
   PomShapes = {1, 2, 3, 4, 5, 6, 7, 8}
   Notations = {"sq"}
